@@ -416,14 +416,19 @@ def main():
     for l in range(1, L + 1):
         hs_all += all_histories(n, l)
     # (quick: three of the four counter seeds; the fourth differs from the second only in the alignment, which phase 3 sweeps)
-    for seedname, seed in (SEEDS if t == "thorough" else SEEDS[:2] + SEEDS[3:]) + [WRAP_SEED]:
+    # (seed by seed, shortest histories first: a tier that runs into its deadline reports what it completed and is not exhaustive)
+    done_seeds = []
+    for seedname, seed in [SEEDS[0], WRAP_SEED] + (SEEDS[1:] if t == "thorough" else SEEDS[1:2] + SEEDS[3:]):
+        if rep.out_of_time(0.45):
+            break
         hs = hs_all if seedname != WRAP_SEED[0] else [h for h in hs_all if len(h) <= 2]
         chunk = max(50, len(hs) // (ncpu * 2) + 1)
-        for i in range(0, len(hs), chunk):
-            jobs.append((evs, ref, seedname, seed, hs[i:i + chunk]))
-    for res in engine.pmap(shard_unpruned, jobs):
-        rep.merge(res)
+        jobs = [(evs, ref, seedname, seed, hs[i:i + chunk]) for i in range(0, len(hs), chunk)]
+        for res in engine.pmap(shard_unpruned, jobs):
+            rep.merge(res)
+        done_seeds.append(seedname)
     rep.extra["unpruned_length"] = L
+    rep.extra["unpruned_seeds_completed"] = done_seeds
     phase_s["unpruned"] = round(time.time() - t0, 1)
     for h in (hs_all[n + 5], hs_all[-1]):
         rep.sample({"history": [evs[i][0] for i in h], "first_event": evs[h[0]][1]})
@@ -434,7 +439,7 @@ def main():
         seen = {}
         frontier = [[]]
         for depth in range(1, DEPTH + 1):
-            if rep.out_of_time():
+            if rep.out_of_time(0.75):
                 break
             chunk = max(5, min(400, len(frontier) // (ncpu * 3) + 1))
             jobs = [(evs, ref, seedname, seed, frontier[i:i + chunk]) for i in range(0, len(frontier), chunk)]
@@ -475,18 +480,20 @@ def main():
     kevs = kept_events(evs)
     kref = reference(kevs)
     KL = 3 if t == "quick" else 4
-    khs = []
-    for l in range(1, KL + 1):
-        khs += all_histories(len(kevs), l)
-    jobs = []
+    kdone = []
     for seedname, seed in BFS_SEEDS:
-        chunk = max(50, len(khs) // (ncpu * 2) + 1)
-        for i in range(0, len(khs), chunk):
-            jobs.append((kevs, kref, seedname, seed, khs[i:i + chunk]))
-    for res in engine.pmap(shard_kept, jobs):
-        rep.merge(res)
+        for l in range(1, KL + 1):
+            if l == KL and KL > 3 and rep.out_of_time(0.9):
+                break
+            khs = all_histories(len(kevs), l)
+            chunk = max(50, len(khs) // (ncpu * 2) + 1)
+            jobs = [(kevs, kref, seedname, seed, khs[i:i + chunk]) for i in range(0, len(khs), chunk)]
+            for res in engine.pmap(shard_kept, jobs):
+                rep.merge(res)
+            kdone.append("%s:length-%d" % (seedname, l))
     rep.extra["kept_document_events"] = [name for name, _ in kevs]
     rep.extra["kept_document_length"] = KL
+    rep.extra["kept_document_completed"] = kdone
     phase_s["kept"] = round(time.time() - t0, 1)
     rep.extra["phase_end_s"] = phase_s
     print("phases end at", phase_s)
